@@ -46,6 +46,8 @@ def gen_seq(rng):
         cfg['explicit'] = True
         cfg.pop('exc_api', None)
         cfg.pop('explicit_none_passed', None)
+        if cfg.pop('special', None):
+            cfg['exception_only'] = False
     nclients = rng.choice([1, 2, 2, 3])
     clients = []
     for k in range(nclients):
